@@ -68,3 +68,12 @@ add("C09", "exploration", [
      "shards": {"quick": 8, "thorough": 16}, "checks": {"quick": 400, "thorough": 12000},
      "timeout": {"quick": 600, "thorough": 3000}},
 ])
+
+add("C20", "exploration", [
+    {"name": "c20-laws", "bin": "c20", "pkg": ZZ + "c20", "run": "^TestVerifC20Laws$",
+     "shards": {"quick": 4, "thorough": 8}, "checks": {"quick": 2000, "thorough": 100000},
+     "timeout": {"quick": 300, "thorough": 2400}},
+    {"name": "c20-e2e", "bin": "c20", "pkg": ZZ + "c20", "run": "^TestVerifC20EndToEnd$",
+     "shards": {"quick": 8, "thorough": 12}, "checks": {"quick": 60, "thorough": 3000},
+     "timeout": {"quick": 600, "thorough": 3000}},
+])
